@@ -119,8 +119,9 @@ PALETTES = [
 # which derived fields accompany K / A in a test (keeps the sweep affordable)
 EXTRA = [("U", "F"), ("T", "E"), ("PX", "N"), ("Z", "S"), ("N", "F"), ("T", "Z"), ("U", "PX"), ("E", "S")]
 # storage dimensions besides cache / async: a pairwise covering array over (gz, lc, ext, plain)
-# (compress, lower-case names, extension: 0 ".json" / 1 ".dat" / 2 ".j.gz" - an extension that itself ends in .gz -, plain struct)
-STORAGE = [(0, 0, 0, 0), (1, 1, 0, 0), (0, 0, 1, 1), (1, 0, 1, 0), (0, 1, 0, 1), (1, 0, 0, 1), (0, 1, 1, 0), (1, 1, 1, 1), (1, 0, 2, 0), (0, 1, 2, 1)]
+# (compress, lower-case names, extension: 0 ".json" / 1 ".dat" / 2 ".j.gz" - an extension that itself ends in .gz - / 3 none at all, plain struct)
+STORAGE = [(0, 0, 0, 0), (1, 1, 0, 0), (0, 0, 1, 1), (1, 0, 1, 0), (0, 1, 0, 1), (1, 0, 0, 1), (0, 1, 1, 0), (1, 1, 1, 1), (1, 0, 2, 0), (0, 1, 2, 1),
+           (0, 0, 3, 0), (1, 1, 3, 1)]
 
 
 def case_code(uni, field, cls, variant):
@@ -131,7 +132,7 @@ def case_code(uni, field, cls, variant):
 def make_cfg(cache, asyn, storage, thr=100000, tmo_ms=3600000):
     gz, lc, ext, plain = STORAGE[storage % len(STORAGE)]
     return dict(cache=bool(cache), **{"async": bool(asyn)}, thr=thr, tmo_ms=tmo_ms, gz=bool(gz), lc=bool(lc),
-                ext=[".json", ".dat", ".j.gz"][ext], plain=bool(plain))
+                ext=[".json", ".dat", ".j.gz", "-"][ext], plain=bool(plain))
 
 
 def conv_obj(uni, o, pal, extra, n):
@@ -267,7 +268,7 @@ class RandGen:
     def val(self, f, narrow=True):
         rng, sizes, uni = self.rng, self.sizes, self.uni
         # values concentrate on a small window so that ties and conflicts are frequent
-        if f in ("S", "N", "W", "PY"):
+        if f in ("S", "N", "W", "PY", "R"):
             ncls = sizes[f]
             cls = rng.randrange(min(ncls, 6)) if narrow else rng.randrange(ncls)
             if f == "S":
@@ -310,7 +311,7 @@ class RandGen:
         rng = self.rng
         f = rng.choice(fields or (["K", "S", "V", "W"] + self.flds))
         c = {"f": f, "op": rng.choice(QOPS), "p": self.val(f)}
-        if f in ("S", "N", "W", "PY", "Z") and rng.random() < 0.2:
+        if f in ("S", "N", "W", "PY", "Z", "R") and rng.random() < 0.2:
             c = {"f": f, "op": "~=", "pat": rng.choice(PATTERNS), "p": 0}
         if conn:
             c["conn"] = conn
@@ -348,14 +349,14 @@ class RandGen:
 
 
 # custom schemas (harness: custom()): which fields get other constraints than their struct tags
-CUST_FIELDS = {1: ["A"], 2: ["U"], 3: ["V"], 4: ["F", "E"], 5: ["V", "Z"], 6: ["Z"]}
+CUST_FIELDS = {1: ["A"], 2: ["U"], 3: ["V"], 4: ["F", "E"], 5: ["V", "Z"], 6: ["Z"], 7: ["R"]}
 
 
 def random_test(uni, rng, idx, nops=40, nslots=8, p_reopen=0.06, p_batch=0.12, p_del=0.15, cfgs=None, pal=None, fields=None,
                 case_heavy=False, p_query=0.0, abandon=False, p_bad=0.0, max_chain=2, cust=None):
     g = RandGen(uni, rng, pal=pal, fields=fields, case_heavy=case_heavy, nslots=nslots)
     # three histories in eight run under a custom schema: "any subset of fields indexed / unique"
-    cust = rng.choice([0, 0, 0, 0, 0, 0, 1, 2, 3, 4, 5, 6, 6]) if cust is None else cust
+    cust = rng.choice([0, 0, 0, 0, 0, 0, 0, 1, 2, 3, 4, 5, 6, 6, 7, 7]) if cust is None else cust
     cf = CUST_FIELDS.get(cust, [])
     g.flds = g.flds + [f for f in cf if f != "V" and f not in g.flds]
     c = rng.choice(cfgs) if cfgs else (rng.random() < 0.5, rng.random() < 0.35)
@@ -386,8 +387,14 @@ def random_test(uni, rng, idx, nops=40, nslots=8, p_reopen=0.06, p_batch=0.12, p
                 ops[-1]["bad"] = rng.choice(["nan", "inf", "chan"])
                 ops[-1]["o"]["V"] = 2
                 ops[-1]["o"].pop("W", None)
-    return {"id": "rnd%d" % idx, "cfg": dict(make_cfg(c[0], c[1], rng.randrange(len(STORAGE))), cust=cust), "ops": ops,
+    cfg = dict(make_cfg(c[0], c[1], rng.randrange(len(STORAGE))), cust=cust)
+    if not c[1] and rng.random() < 0.2:
+        cfg["asyncoff"] = True       # synchronous, with asynchronous-write settings present but switched off
+    t = {"id": "rnd%d" % idx, "cfg": cfg, "ops": ops,
             "fields": ["K", "S"] + g.flds + (["V"] if "V" in cf else [])}
+    if rng.random() < 0.25:
+        t["ownids"] = True           # new objects of even slots come with an identifier chosen by the caller (upper-case hex)
+    return t
 
 
 def with_aux(t, rng, p=0.25, nslots=4, nkeys=5):
@@ -629,7 +636,7 @@ def damage_tests(uni, rng, limit=None, nslots=3):
                         # one database in three has asynchronous writes enabled (Close flushes before the damage; the persisted
                         # setting is then in force for the handle that recovers)
                         cfg = make_cfg(bool(idx % 2), True, (idx // 2) % 32) if ((idx * 2654435761) >> 7) % 3 == 0 else sync_cfg(idx % 64)
-                        out.append({"id": "dm%d" % idx, "cfg": cfg, "ops": ops, "fields": ["K", "A", "O"]})
+                        out.append({"id": "dm%d" % idx, "cfg": cfg, "ops": ops, "fields": ["K", "A", "O"], "ownids": (idx // 7) % 2 == 1})
                         idx += 1
     if limit and len(out) > limit:
         rng.shuffle(out)
@@ -827,6 +834,22 @@ def reentry_tests(uni, rng, reps=150):
             w2 = [{"op": "put", "slot": 3, "o": obj(3, 8)} for i in range(reps)]
             out.append({"id": "re-%s-%d" % (name, ci), "cfg": make_cfg(c[0], c[1], (ci * 5) % len(STORAGE), thr=1, tmo_ms=100), "ops": setup,
                         "threads": [ops * reps, w1, w2], "perturb": False, "yield": True, "reopen": ci % 2 == 1, "fields": ["K"], "norecord": True})
+    return out
+
+
+def race_stress_tests(uni, rng, reps=60, scale=1):
+    """C08 memory part: every kind of call repeated in one goroutine against a writer and against calls on a SECOND collection
+    of the same handle (whose first access after Open loads its schema), after a reopen or not; run under the race detector
+    without any driver-side synchronisation."""
+    tests = reentry_tests(uni, rng, reps=reps)
+    out = []
+    for i, t in enumerate(tests):
+        if i % max(1, scale) and scale > 1:
+            pass
+        aux = [{"op": "xcount"}, {"op": "xput", "slot": 1 + i % 3, "k": i % 5, "a": i % 3}, {"op": "xget", "slot": 1 + i % 3}, {"op": "xall"}, {"op": "xq"}]
+        t = dict(t, id="rs" + t["id"][2:], aux=True, norecord=True, reopen=(i % 2 == 0), perturb=(i % 3 == 0))
+        t["threads"] = [t["threads"][0], t["threads"][1][: reps // 2], (aux * reps)[:reps]]
+        out.append(t)
     return out
 
 
